@@ -7,6 +7,28 @@ PROPS = [json.loads(l)["id"] for l in open(os.path.join(ROOT, "properties.jsonl"
 
 TRUST = "CPython 3.12.1 (/venv), the harness in /verif/vlib and the reference models named in DESIGN.md"
 
+DT = ("every statement that tests/dialects/*.py pass to validate_identity / validate_all (6839, read by AST), each in its own dialect")
+CL = ("G_clauses = every SUBSET of the optional clauses of each statement kind (SELECT, DELETE, UPDATE, INSERT, MERGE, CREATE, DROP, ALTER, "
+      "CREATE INDEX, set operations, window specifications, aggregates with modifiers, GROUP BY forms, joins, FROM items: 4559 statements)")
+ADDENDA = {
+    "C01": "Also: " + CL + " in all 34 dialects; every projection expression of " + DT + " placed unparenthesised into 24 operator contexts; quick runs the complete pair space of operator-family constructs at expression level in base + 4 dialects.",
+    "C02": "Join conditions range over 8 ON shapes (one-sided conjuncts, residual, OR, inequality) for inner / outer / SEMI / ANTI joins; the aggregate menu includes arithmetic over aggregates.",
+    "C03": "The fragment includes 576 three-item join chains (first item x join kind x join kind x second ON target x outer filter), 72 derived-table body x outer-use combinations and correlated subqueries over two same-named outer columns.",
+    "C04": "Also the identifier WITHOUT the quoted flag wherever the generator promises to quote by itself (identify=True, digit-leading names).",
+    "C05": "Seeds also include " + DT + " (1-token mutants and prefixes); every such statement and every G_clauses statement is generated into ALL dialects; every function name registered by each dialect's parser is called with 0..5 positional arguments, DISTINCT, * and named arguments.",
+    "C07": "Trees also come from " + DT + " and from " + CL + ", under every single option deviation.",
+    "C08": "The parse stream and the optimizer-rule stream also run on " + DT + ".",
+    "C09": "The calls are also applied to " + DT + " and to G_clauses statements.",
+    "C10": "113 shapes in total: also every CTE / derived-table wrapper (with and without a column list, star or named) over 8 set-operation body shapes, and NATURAL / USING chains whose common column sits in a non-neighbour table.",
+    "C11": "Also LIMIT / OFFSET without a total order (judged by row count and containment in the unlimited result) and correlated subqueries over two same-named outer columns.",
+    "C12": "States also include " + DT + " and a cast to every DType member (bare / parameterised / nested); an empty list must come back as an empty list.",
+    "C13": "All oracles also run on " + DT + ", as written and with every inter-token gap turned into LF / CRLF+TAB, and on every ordered pair of 11 x 6 inputs fed to one reused Tokenizer.",
+    "C14": "Inputs also include " + DT + " with its 1-token deletions / duplications (parse relation) and generated into 12 (thorough: all) targets, and G_clauses statements; the WARN reference for generation is the list of Generator.unsupported() calls; the RAISE message must equal the documented rendering exactly.",
+    "C15": "Calls also include " + DT + " (quick: every second), 17 transform probes into every target and BY NAME star expansions; every call runs twice in a row in one cell; each dialect gets a cold and a warm (all other dialects loaded first) process.",
+    "C17": "Wrappers include scalar / IN subqueries whose body is a set operation.",
+    "C20": "Edits include replacing a node by an instance of its sub- / superclass (CAST -> TRY_CAST, HEX -> LOWER_HEX, EXPLODE -> POSEXPLODE).",
+}
+
 CHECKS = {
     "C01": dict(
         category="exploration", engine="E1",
@@ -251,6 +273,9 @@ NOT_YET = "check not built yet in this session (design in DESIGN.md section 2); 
 
 def main():
     checks = []
+    for pid, extra in ADDENDA.items():
+        if extra not in CHECKS[pid]["text"]:
+            CHECKS[pid]["text"] += " " + extra
     for pid in PROPS:
         c = CHECKS.get(pid)
         if not c:
